@@ -145,6 +145,15 @@ theorem neutral_tokens_ignored (ts : List Tok) (hw : ∀ t ∈ ts, wfTok t = tru
     have := scan_neutral_tok St.init quiet_init rfl t (hw t (by simp)) (hn t (by simp)) (renderSection ts ++ post)
     exact this.trans (ih (fun t ht => hw t (by simp [ht])) (fun t ht => hn t (by simp [ht])))
 
+/-- beyond the placeholder characters the grammar lists: EVERY character other than the twenty-two the scanner
+    reacts to (`" ; [ ] _ \`, `a A`, `d D m M h H y Y s S`) — digits, `e`, `g`, `b`, currency signs, CJK text … — is
+    ignored when it stands unquoted at the start of the remaining text -/
+theorem unreserved_char_ignored (c : Char) (hc : isPlain c = true) (post : List Char) :
+    detect (c :: post) = detect post := by
+  have h := scan_append St.init [c] post
+  rw [run_plain St.init quiet_init rfl c hc] at h
+  exact h.trans (scan_prev_irrelevant St.init quiet_init rfl c post)
+
 /-- `[h]`, `[mm]`, `[SS]` … after neutral tokens is an elapsed-time format whatever follows; a date token after
     neutral tokens makes a date format whatever follows -/
 theorem first_date_token_decides (ts : List Tok) (hw : ∀ t ∈ ts, wfTok t = true) (hn : ∀ t ∈ ts, isNeutralTok t = true)
